@@ -1,18 +1,813 @@
 /-
-  Property C11 — PLACEHOLDER while the full theorem file is being written and proved.
+  Property C11 — token ids are deterministic and write-once; deployed tokens stay mintable by the service.
+  Statements are FIXED: prove them exactly as stated (helper lemmas go above them or in Cgp/Proofs/C11.lean).
+  If you are convinced a statement is false as written, leave it `sorry`, give the concrete counterexample in your report
+  and propose the minimal corrected statement.
 -/
-import Cgp.Its
+import Cgp.ItsOps
 namespace Cgp.Props.C11
 open Cgp Cgp.Xdr Cgp.Its
 
-/-- owner-only trusted-chain changes never touch balances, registry or approvals (frame clause shared by the ITS properties) -/
-theorem setTrusted_frame (st st' : State) (auths : List Addr) (c : Bytes) (evs : List Event)
-    (h : setTrustedChain st auths c = .ok (st', evs)) :
-    st.owner ∈ auths ∧ st'.tokens = st.tokens ∧ st'.registry = st.registry ∧ st'.gw = st.gw := by
-  unfold setTrustedChain at h
-  split at h <;> try simp at h
-  split at h <;> try simp at h
-  obtain ⟨rfl, _⟩ := h
-  simp_all
+variable (H : Bytes → Bytes) (S : Bytes → Bytes) (k : Consts)
+
+/-- the values really are host values: 32-byte ids, u32-sized strings -/
+def Small (b : Bytes) : Prop := b.length < 256 ^ 4
+
+/-! ### ids are domain-separated, injective functions of their inputs (or a hash collision is exhibited) -/
+
+theorem zeroAddr_wf : zeroAddr.WF := by
+  simp [zeroAddr, Addr.WF]
+
+theorem chainNameHash_binds (c c' : Bytes) (hc : Small c) (hc' : Small c') (h : chainNameHash H c = chainNameHash H c') :
+    c = c' ∨ Collision H := by
+  unfold chainNameHash at h
+  by_cases hx : enc (.str c) = enc (.str c')
+  · left
+    have h1 := enc_injective _ _ (by simpa [ScVal.WF, Small] using hc) (by simpa [ScVal.WF, Small] using hc') hx
+    simpa using h1
+  · exact Or.inr ⟨_, _, hx, h⟩
+
+theorem deploySalt_binds (c c' : Bytes) (d d' : Addr) (s s' : Bytes)
+    (hc : Small c) (hc' : Small c') (hd : d.WF) (hd' : d'.WF) (hs : Small s) (hs' : Small s')
+    (hp : Small k.prefixTokenSalt) (hh : ∀ x, Small (H x))
+    (h : deploySalt H k c d s = deploySalt H k c' d' s') :
+    (c = c' ∧ d = d' ∧ s = s') ∨ Collision H := by
+  unfold deploySalt at h
+  by_cases hx : enc (.vec (.cons (.str k.prefixTokenSalt) (.cons (.bytes (chainNameHash H c))
+      (.cons (.addr d) (.cons (.bytes s) .nil))))) = enc (.vec (.cons (.str k.prefixTokenSalt) (.cons (.bytes (chainNameHash H c'))
+      (.cons (.addr d') (.cons (.bytes s') .nil)))))
+  · unfold Small at *
+    have h1 := enc_injective _ _ (by simp [ScVal.WF, ScVals.WF, ScVals.len, chainNameHash, *])
+      (by simp [ScVal.WF, ScVals.WF, ScVals.len, chainNameHash, *]) hx
+    simp only [ScVal.vec.injEq, ScVals.cons.injEq, ScVal.bytes.injEq, ScVal.addr.injEq, true_and, and_true] at h1
+    obtain ⟨h2, h3, h4⟩ := h1
+    rcases chainNameHash_binds H c c' hc hc' h2 with h5 | h5
+    · exact Or.inl ⟨h5, h3, h4⟩
+    · exact Or.inr h5
+  · exact Or.inr ⟨_, _, hx, h⟩
+
+theorem tokenIdOf_binds (a a' : Addr) (s s' : Bytes) (ha : a.WF) (ha' : a'.WF) (hs : Small s) (hs' : Small s')
+    (hp2 : Small k.prefixTokenId) (h : tokenIdOf H k a s = tokenIdOf H k a' s') :
+    (a = a' ∧ s = s') ∨ Collision H := by
+  unfold tokenIdOf at h
+  by_cases hx : enc (.vec (.cons (.str k.prefixTokenId) (.cons (.addr a) (.cons (.bytes s) .nil)))) =
+      enc (.vec (.cons (.str k.prefixTokenId) (.cons (.addr a') (.cons (.bytes s') .nil))))
+  · unfold Small at *
+    have h1 := enc_injective _ _ (by simp [ScVal.WF, ScVals.WF, ScVals.len, *])
+      (by simp [ScVal.WF, ScVals.WF, ScVals.len, *]) hx
+    simp only [ScVal.vec.injEq, ScVals.cons.injEq, ScVal.bytes.injEq, ScVal.addr.injEq, true_and, and_true] at h1
+    exact Or.inl h1
+  · exact Or.inr ⟨_, _, hx, h⟩
+
+theorem canonicalSalt_binds (c c' : Bytes) (t t' : Addr)
+    (hc : Small c) (hc' : Small c') (ht : t.WF) (ht' : t'.WF)
+    (hp : Small k.prefixCanonicalSalt) (hh : ∀ x, Small (H x))
+    (h : canonicalSalt H k c t = canonicalSalt H k c' t') :
+    (c = c' ∧ t = t') ∨ Collision H := by
+  unfold canonicalSalt at h
+  by_cases hx : enc (.vec (.cons (.str k.prefixCanonicalSalt) (.cons (.bytes (chainNameHash H c)) (.cons (.addr t) .nil)))) =
+      enc (.vec (.cons (.str k.prefixCanonicalSalt) (.cons (.bytes (chainNameHash H c')) (.cons (.addr t') .nil))))
+  · unfold Small at *
+    have h1 := enc_injective _ _ (by simp [ScVal.WF, ScVals.WF, ScVals.len, chainNameHash, *])
+      (by simp [ScVal.WF, ScVals.WF, ScVals.len, chainNameHash, *]) hx
+    simp only [ScVal.vec.injEq, ScVals.cons.injEq, ScVal.bytes.injEq, ScVal.addr.injEq, true_and, and_true] at h1
+    obtain ⟨h2, h3⟩ := h1
+    rcases chainNameHash_binds H c c' hc hc' h2 with h5 | h5
+    · exact Or.inl ⟨h5, h3⟩
+    · exact Or.inr h5
+  · exact Or.inr ⟨_, _, hx, h⟩
+
+/-- the id of a service-deployed token is bound to (chain name, deployer, salt) -/
+theorem interchain_id_binds (c c' : Bytes) (d d' : Addr) (s s' : Bytes)
+    (hc : Small c) (hc' : Small c') (hd : d.WF) (hd' : d'.WF) (hs : Small s) (hs' : Small s')
+    (hp : Small k.prefixTokenSalt) (hp2 : Small k.prefixTokenId) (hh : ∀ x, Small (H x))
+    (h : interchainTokenId H k c d s = interchainTokenId H k c' d' s') :
+    (c = c' ∧ d = d' ∧ s = s') ∨ Collision H := by
+  unfold interchainTokenId at h
+  rcases tokenIdOf_binds H k _ _ _ _ zeroAddr_wf zeroAddr_wf (hh _) (hh _) hp2 h with ⟨_, h1⟩ | h1
+  · exact deploySalt_binds H k c c' d d' s s' hc hc' hd hd' hs hs' hp hh h1
+  · exact Or.inr h1
+
+/-- the id of a canonical token is bound to (chain name, token address) -/
+theorem canonical_id_binds (c c' : Bytes) (t t' : Addr)
+    (hc : Small c) (hc' : Small c') (ht : t.WF) (ht' : t'.WF)
+    (hp : Small k.prefixCanonicalSalt) (hp2 : Small k.prefixTokenId) (hh : ∀ x, Small (H x))
+    (h : canonicalTokenId H k c t = canonicalTokenId H k c' t') :
+    (c = c' ∧ t = t') ∨ Collision H := by
+  unfold canonicalTokenId at h
+  rcases tokenIdOf_binds H k _ _ _ _ zeroAddr_wf zeroAddr_wf (hh _) (hh _) hp2 h with ⟨_, h1⟩ | h1
+  · exact canonicalSalt_binds H k c c' t t' hc hc' ht ht' hp hh h1
+  · exact Or.inr h1
+
+/-- the two kinds of id never coincide, as long as the two salt prefixes differ -/
+theorem interchain_ne_canonical (c c' : Bytes) (d t : Addr) (s : Bytes)
+    (hc : Small c) (hc' : Small c') (hd : d.WF) (ht : t.WF) (hs : Small s)
+    (hp : Small k.prefixTokenSalt) (hp' : Small k.prefixCanonicalSalt) (hp2 : Small k.prefixTokenId) (hh : ∀ x, Small (H x))
+    (hne : k.prefixTokenSalt ≠ k.prefixCanonicalSalt)
+    (h : interchainTokenId H k c d s = canonicalTokenId H k c' t) : Collision H := by
+  unfold interchainTokenId canonicalTokenId at h
+  rcases tokenIdOf_binds H k _ _ _ _ zeroAddr_wf zeroAddr_wf (hh _) (hh _) hp2 h with ⟨_, h1⟩ | h1
+  · try unfold deploySalt canonicalSalt at h1
+    refine ⟨_, _, ?_, h1⟩
+    intro hx
+    unfold Small at *
+    have h2 := enc_injective _ _ (by simp [ScVal.WF, ScVals.WF, ScVals.len, chainNameHash, *])
+      (by simp [ScVal.WF, ScVals.WF, ScVals.len, chainNameHash, *]) hx
+    simp at h2
+  · exact h1
+
+/-- the deployed token's address is a function of (service, id), and different ids give different addresses or a collision of S -/
+theorem deployed_address_binds (self : Addr) (tid tid' : Bytes) (h1 : tid.length = 32) (h2 : tid'.length = 32)
+    (h : deployedAddress S k self tid = deployedAddress S k self tid') : tid = tid' ∨ Collision S := by
+  unfold deployedAddress at h
+  simp only [Addr.mk.injEq, true_and] at h
+  by_cases hx : be32 8 ++ k.networkId ++ be32 0 ++ encAddr self ++ tid = be32 8 ++ k.networkId ++ be32 0 ++ encAddr self ++ tid'
+  · exact Or.inl (List.append_cancel_left hx)
+  · exact Or.inr ⟨_, _, hx, h⟩
+
+/-! ### helper lemmas: frames and inversion -/
+
+def Frame (st st' : State) : Prop :=
+  st'.self = st.self ∧ st'.chainName = st.chainName ∧ st'.registry = st.registry ∧
+  (∀ a, (st.tokens a).isSome = true → (st'.tokens a).isSome = true)
+
+theorem Frame.refl (st : State) : Frame st st := ⟨rfl, rfl, rfl, fun _ h => h⟩
+
+theorem Frame.trans {a b c : State} (h1 : Frame a b) (h2 : Frame b c) : Frame a c :=
+  ⟨h2.1.trans h1.1, h2.2.1.trans h1.2.1, h2.2.2.1.trans h1.2.2.1, fun x hx => h2.2.2.2 x (h1.2.2.2 x hx)⟩
+
+theorem frame_setTok (st : State) (a : Addr) (t : Tok) : Frame st (setTok st a t) := by
+  refine ⟨rfl, rfl, rfl, ?_⟩
+  intro x hx
+  simp only [setTok]
+  split <;> simp [hx]
+
+theorem frame_gw (st : State) (g : Gateway.State) : Frame st { st with gw := g } := ⟨rfl, rfl, rfl, fun _ h => h⟩
+
+theorem setTok_isSome (st : State) (a : Addr) (t : Tok) : ((setTok st a t).tokens a).isSome = true := by
+  simp [setTok]
+
+theorem setTok_get (st : State) (a : Addr) (t : Tok) : (setTok st a t).tokens a = some t := by
+  simp [setTok]
+
+theorem tokTransfer_frame {st st' : State} {token src dst : Addr} {amount : Int} {au : Bool}
+    (h : tokTransfer st token src dst amount au = .ok st') : Frame st st' := by
+  unfold tokTransfer at h
+  split at h
+  · cases h
+  · split at h
+    · cases h
+    · extract_lets b1 at h
+      split at h
+      · cases h
+      · cases h; exact frame_setTok _ _ _
+
+theorem tokBurn_frame {st st' : State} {token src : Addr} {amount : Int} {au : Bool}
+    (h : tokBurn st token src amount au = .ok st') : Frame st st' := by
+  unfold tokBurn at h
+  split at h
+  · cases h
+  · split at h
+    · cases h
+    · split at h
+      · cases h
+      · cases h; exact frame_setTok _ _ _
+
+theorem tokMint_inv {st st' : State} {token dst : Addr} {amount : Int}
+    (h : tokMintByService st token dst amount = .ok st') :
+    ∃ t, st.tokens token = some t ∧ t.kind = .interchain ∧ t.owner = st.self ∧ t.minter t.owner = true ∧
+      st' = setTok st token { t with bal := fun a => if a = dst then t.bal dst + amount else t.bal a } := by
+  unfold tokMintByService at h
+  split at h
+  · cases h
+  · rename_i t ht
+    split at h
+    · cases h
+    · rename_i hk
+      split at h
+      · cases h
+      · rename_i hc
+        cases h
+        refine ⟨t, ht, by simpa using hk, ?_, ?_, rfl⟩
+        · by_cases ho : t.owner = st.self
+          · exact ho
+          · exact absurd (Or.inl ho) hc
+        · cases hm : t.minter t.owner
+          · exact absurd (Or.inr (Or.inl (by simp [hm]))) hc
+          · rfl
+
+theorem tokMint_frame {st st' : State} {token dst : Addr} {amount : Int}
+    (h : tokMintByService st token dst amount = .ok st') : Frame st st' := by
+  obtain ⟨t, _, _, _, _, rfl⟩ := tokMint_inv h
+  exact frame_setTok _ _ _
+
+def freshTok (st : State) (mo : Option Addr) (tid n s : Bytes) (d : Nat) : Tok :=
+  { kind := .interchain, name := n, symbol := s, decimals := d, bal := fun _ => 0, owner := st.self,
+    minter := fun a => a = st.self || mo = some a, tokenId := tid }
+
+theorem deployTokenContract_inv {st st1 : State} {mo : Option Addr} {tid n s : Bytes} {d : Nat} {addr : Addr} {ev : Event}
+    (h : deployTokenContract S k st mo tid n s d = .ok (st1, addr, ev)) :
+    addr = deployedAddress S k st.self tid ∧ (st.tokens addr).isSome = false ∧
+    st1 = setTok st addr (freshTok st mo tid n s d) := by
+  unfold deployTokenContract at h
+  simp only at h
+  split at h
+  · cases h
+  · rename_i hc
+    split at h
+    · cases h
+    · cases h
+      refine ⟨rfl, ?_, rfl⟩
+      cases hs : (st.tokens (deployedAddress S k st.self tid)).isSome
+      · rfl
+      · exact absurd (Or.inl hs) hc
+
+theorem payGas_frame {st st' : State} {sp : Addr} {au : Bool} {dc : Bytes} {m : Abi.Msg} {gt : Addr} {ga : Int} {evs : List Event}
+    (h : payGasAndCall H k st sp au dc m gt ga = .ok (st', evs)) : Frame st st' := by
+  unfold payGasAndCall at h
+  split at h
+  · cases h
+  · split at h
+    · cases h
+    · cases h
+    · split at h
+      · cases h
+      · split at h
+        · cases h
+        · split at h
+          · cases h
+          · rename_i st1 ht
+            cases h
+            exact tokTransfer_frame ht
+
+theorem deployRemoteToken_frame {st st' : State} {sp : Addr} {au : Bool} {ds dc : Bytes} {gt : Addr} {ga : Int} {tid : Bytes} {evs : List Event}
+    (h : deployRemoteToken H k st sp au ds dc gt ga = .ok (st', tid, evs)) : Frame st st' := by
+  unfold deployRemoteToken at h
+  extract_lets tid0 at h
+  split at h
+  · cases h
+  · split at h
+    · cases h
+    · split at h
+      · cases h
+      · simp only at h
+        split at h
+        · cases h
+        · rename_i st1 evs1 hp
+          simp only [Except.ok.injEq, Prod.mk.injEq] at h
+          rw [← h.1]
+          exact payGas_frame H k hp
+
+theorem interchainTransfer_frame {st st' : State} {auths : List Addr} {caller : Addr} {tid dc da : Bytes} {amount : Int}
+    {data : Option Bytes} {gt : Addr} {ga : Int} {evs : List Event}
+    (h : interchainTransfer H k st auths caller tid dc da amount data gt ga = .ok (st', evs)) : Frame st st' := by
+  unfold interchainTransfer at h
+  split at h
+  · cases h
+  · split at h
+    · cases h
+    · split at h
+      · cases h
+      · rename_i addr mgr hr
+        simp only at h
+        split at h
+        · cases h
+        · rename_i st1 ht
+          split at h
+          · cases h
+          · rename_i st2 evs2 hp
+            cases h
+            refine Frame.trans ?_ (payGas_frame H k hp)
+            cases mgr
+            · exact tokBurn_frame ht
+            · exact tokTransfer_frame ht
+
+theorem deploy_inv {st st' : State} {auths : List Addr} {caller : Addr} {salt name symbol : Bytes} {decimals : Nat}
+    {supply : Int} {minter : Option Addr} {tid : Bytes} {evs : List Event}
+    (h : deployInterchainToken H S k st auths caller salt name symbol decimals supply minter = .ok (st', tid, evs)) :
+    caller ∈ auths ∧ tid = interchainTokenId H k st.chainName caller salt ∧
+    (st.tokens (deployedAddress S k st.self tid)).isSome = false ∧
+    ∃ st3, st' = { st3 with registry := fun x => if x = tid then some (deployedAddress S k st.self tid, .native) else st3.registry x } ∧
+      ((¬ supply > 0 ∧ (∀ m, minter = some m → m ≠ st.self) ∧
+          st3 = setTok st (deployedAddress S k st.self tid) (freshTok st minter tid name symbol decimals)) ∨
+       (supply > 0 ∧ ∃ st2, tokMintByService (setTok st (deployedAddress S k st.self tid) (freshTok st (some st.self) tid name symbol decimals))
+            (deployedAddress S k st.self tid) caller supply = .ok st2 ∧
+          ((minter = none ∧ st3 = st2) ∨
+           (∃ m t, minter = some m ∧ st2.tokens (deployedAddress S k st.self tid) = some t ∧
+              st3 = setTok st2 (deployedAddress S k st.self tid)
+                { t with minter := fun a => if a = m then true else if a = st2.self then false else t.minter a })))) := by
+  unfold deployInterchainToken at h
+  by_cases hau : caller ∈ auths
+  · simp only [hau, not_true_eq_false, if_false] at h
+    by_cases hsup : supply > 0
+    · simp only [hsup, if_true] at h
+      cases hd : deployTokenContract S k st (some st.self) (interchainTokenId H k st.chainName caller salt) name symbol decimals with
+      | error e => rw [hd] at h; cases h
+      | ok r =>
+        obtain ⟨st1, addr, ev⟩ := r
+        rw [hd] at h
+        simp only at h
+        obtain ⟨ha, hnone, hst1⟩ := deployTokenContract_inv S k hd
+        cases hm : tokMintByService st1 addr caller supply with
+        | error e => rw [hm] at h; cases h
+        | ok st2 =>
+          rw [hm] at h
+          simp only at h
+          cases minter with
+          | none =>
+            simp only [Except.ok.injEq, Prod.mk.injEq] at h
+            obtain ⟨h1, h2, h3⟩ := h
+            subst h2 ha hst1
+            exact ⟨hau, rfl, hnone, st2, h1.symm, Or.inr ⟨hsup, st2, hm, Or.inl ⟨rfl, rfl⟩⟩⟩
+          | some m =>
+            simp only at h
+            cases ht : st2.tokens addr with
+            | none => rw [ht] at h; cases h
+            | some t =>
+              rw [ht] at h
+              simp only [Except.ok.injEq, Prod.mk.injEq] at h
+              obtain ⟨h1, h2, h3⟩ := h
+              subst h2 ha hst1
+              exact ⟨hau, rfl, hnone, _, h1.symm, Or.inr ⟨hsup, st2, hm, Or.inr ⟨m, t, rfl, ht, rfl⟩⟩⟩
+    · simp only [hsup, if_false] at h
+      split at h
+      · cases h
+      · rename_i im heq
+        have him : im = minter ∧ ∀ m, minter = some m → m ≠ st.self := by
+          cases minter with
+          | none =>
+            simp only [Except.ok.injEq] at heq
+            exact ⟨heq.symm, by intro m hm; cases hm⟩
+          | some m =>
+            simp only at heq
+            by_cases hm : m = st.self
+            · simp [hm] at heq
+            · simp only [hm, if_false, Except.ok.injEq] at heq
+              exact ⟨heq.symm, by intro m' hm'; cases hm'; exact hm⟩
+        obtain ⟨rfl, hne⟩ := him
+        cases hd : deployTokenContract S k st im (interchainTokenId H k st.chainName caller salt) name symbol decimals with
+        | error e => rw [hd] at h; cases h
+        | ok r =>
+          obtain ⟨st1, addr, ev⟩ := r
+          rw [hd] at h
+          simp only [Except.ok.injEq, Prod.mk.injEq] at h
+          obtain ⟨ha, hnone, hst1⟩ := deployTokenContract_inv S k hd
+          obtain ⟨h1, h2, h3⟩ := h
+          subst h2 ha hst1
+          exact ⟨hau, rfl, hnone, _, h1.symm, Or.inl ⟨hsup, hne, rfl⟩⟩
+  · simp only [hau, not_false_eq_true, if_true] at h
+    cases h
+
+theorem execute_inv {st st' : State} {c i sa payload : Bytes} {evs : List Event}
+    (h : execute H S k st c i sa payload = .ok (st', evs)) :
+    ∃ gw' origin inner, Abi.decodeHub payload = .ok (.receiveFromHub origin inner) ∧
+      match inner with
+      | .transfer _ => Frame st st'
+      | .deploy d => (st.registry d.tokenId).isSome = false ∧ ∃ st1 addr ev,
+          deployTokenContract S k { st with gw := gw' } (d.minter.bind addrFromXdr) d.tokenId d.name d.symbol d.decimals
+            = .ok (st1, addr, ev) ∧
+          st' = { st1 with registry := fun x => if x = d.tokenId then some (addr, .native) else st1.registry x } := by
+  unfold execute at h
+  split at h
+  · cases h
+  · cases h
+  · rename_i gw' gwEvs hv
+    extract_lets st0 gwEvents at h
+    split at h
+    · cases h
+    · cases h
+    · split at h
+      · cases h
+      · split at h
+        · cases h
+        · split at h
+          · cases h
+          · cases h
+          · rename_i origin inner hdec
+            split at h
+            · cases h
+            · split at h
+              · rename_i t
+                refine ⟨gw', origin, _, hdec, ?_⟩
+                show Frame st st'
+                split at h
+                · cases h
+                · rename_i recipient hrec
+                  split at h
+                  · cases h
+                  · rename_i addr mgr hreg
+                    extract_lets given at h
+                    generalize hgiven : given = g at h
+                    cases g with
+                    | error e => cases h
+                    | ok st1 =>
+                      simp only at h
+                      simp only [given] at hgiven
+                      have hf : Frame st st1 := by
+                        refine Frame.trans (frame_gw st gw') ?_
+                        cases mgr
+                        · exact tokMint_frame hgiven
+                        · exact tokTransfer_frame hgiven
+                      split at h
+                      · cases h; exact hf
+                      · split at h
+                        · cases h; exact hf
+                        · cases h
+              · rename_i d
+                refine ⟨gw', origin, _, hdec, ?_⟩
+                show _ ∧ _
+                split at h
+                · cases h
+                · rename_i hreg
+                  split at h
+                  · cases h
+                  · extract_lets minter at h
+                    generalize hmo : minter = g at h
+                    cases g with
+                    | error e => cases h
+                    | ok mo =>
+                      simp only at h
+                      have hmo' : mo = d.minter.bind addrFromXdr := by
+                        cases hdm : d.minter with
+                        | none =>
+                          simp only [minter, hdm, Except.ok.injEq] at hmo
+                          simp [← hmo]
+                        | some m =>
+                          simp only [minter, hdm] at hmo
+                          cases hx : addrFromXdr m with
+                          | none => rw [hx] at hmo; cases hmo
+                          | some a =>
+                            rw [hx] at hmo
+                            simp only [Except.ok.injEq] at hmo
+                            simp [← hmo, hx]
+                      subst hmo'
+                      split at h
+                      · cases h
+                      · rename_i st1 addr ev hd
+                        simp only [Except.ok.injEq, Prod.mk.injEq] at h
+                        refine ⟨?_, st1, addr, ev, hd, h.1.symm⟩
+                        cases hs : (st.registry d.tokenId).isSome
+                        · rfl
+                        · exact absurd hs hreg
+
+theorem frame_trusted (st : State) (f : Bytes → Bool) : Frame st { st with trusted := f } := ⟨rfl, rfl, rfl, fun _ h => h⟩
+theorem frame_owner (st : State) (o : Addr) : Frame st { st with owner := o } := ⟨rfl, rfl, rfl, fun _ h => h⟩
+
+/-- classification of what one step can do to (self, chainName, registry, tokens) -/
+theorem step_cases (st : State) (op : Op) :
+    Frame st (step H S k st op).1 ∨
+    (∃ st3 tid, Frame st st3 ∧ (st3.tokens (deployedAddress S k st.self tid)).isSome = true ∧
+        (st.tokens (deployedAddress S k st.self tid)).isSome = false ∧
+        (step H S k st op).1 = { st3 with registry := fun x => if x = tid then some (deployedAddress S k st.self tid, .native) else st3.registry x } ∧
+        ((st.registry tid).isSome = false ∨
+          ∃ au ca sa n sy d su m, op = .deploy au ca sa n sy d su m ∧ interchainTokenId H k st.chainName ca sa = tid)) ∨
+    (∃ token tid, (st.registry tid).isSome = false ∧
+        (step H S k st op).1 = { st with registry := fun x => if x = tid then some (token, .lockUnlock) else st.registry x }) := by
+  cases op with
+  | setTrusted au c =>
+    left
+    simp only [step, setTrustedChain]
+    split
+    · exact Frame.refl _
+    · split
+      · exact Frame.refl _
+      · exact frame_trusted _ _
+  | removeTrusted au c =>
+    left
+    simp only [step, removeTrustedChain]
+    split
+    · exact Frame.refl _
+    · split
+      · exact Frame.refl _
+      · exact frame_trusted _ _
+  | transferOwnership au n =>
+    left
+    simp only [step, transferOwnership]
+    split
+    · exact Frame.refl _
+    · exact frame_owner _ _
+  | deploy au ca sa n sy d su m =>
+    simp only [step]
+    cases hd : deployInterchainToken H S k st au ca sa n sy d su m with
+    | error e => left; exact Frame.refl _
+    | ok r =>
+      obtain ⟨st', tid, evs⟩ := r
+      right; left
+      obtain ⟨_, htid, hnone, st3, hst', hcase⟩ := deploy_inv H S k hd
+      refine ⟨st3, tid, ?_, ?_, hnone, hst', Or.inr ⟨au, ca, sa, n, sy, d, su, m, rfl, htid.symm⟩⟩
+      · rcases hcase with ⟨_, _, rfl⟩ | ⟨_, st2, hm, ⟨_, rfl⟩ | ⟨m', t, _, _, rfl⟩⟩
+        · exact frame_setTok _ _ _
+        · exact Frame.trans (frame_setTok _ _ _) (tokMint_frame hm)
+        · exact Frame.trans (Frame.trans (frame_setTok _ _ _) (tokMint_frame hm)) (frame_setTok _ _ _)
+      · rcases hcase with ⟨_, _, rfl⟩ | ⟨_, st2, hm, ⟨_, rfl⟩ | ⟨m', t, _, _, rfl⟩⟩
+        · exact setTok_isSome _ _ _
+        · exact (tokMint_frame hm).2.2.2 _ (setTok_isSome _ _ _)
+        · exact setTok_isSome _ _ _
+  | registerCanonical t =>
+    simp only [step, registerCanonicalToken]
+    split
+    · left; exact Frame.refl _
+    · rename_i hreg
+      right; right
+      refine ⟨t, _, ?_, rfl⟩
+      simpa using hreg
+  | deployRemote au ca sa de gt ga =>
+    left
+    simp only [step, deployRemoteInterchainToken]
+    split
+    · exact Frame.refl _
+    · cases hd : deployRemoteToken H k st ca true (deploySalt H k st.chainName ca sa) de gt ga with
+      | error e => exact Frame.refl _
+      | ok r => obtain ⟨st', tid, evs⟩ := r; exact deployRemoteToken_frame H k hd
+  | deployRemoteCanonical au t de sp gt ga =>
+    left
+    simp only [step, deployRemoteCanonicalToken]
+    cases hd : deployRemoteToken H k st sp (decide (sp ∈ au)) (canonicalSalt H k st.chainName t) de gt ga with
+    | error e => exact Frame.refl _
+    | ok r => obtain ⟨st', tid, evs⟩ := r; exact deployRemoteToken_frame H k hd
+  | transfer au ca ti de da am dt gt ga =>
+    left
+    simp only [step]
+    cases hd : interchainTransfer H k st au ca ti de da am dt gt ga with
+    | error e => exact Frame.refl _
+    | ok r => obtain ⟨st', evs⟩ := r; exact interchainTransfer_frame H k hd
+  | execute c i sa p =>
+    simp only [step]
+    cases hd : execute H S k st c i sa p with
+    | error e => left; exact Frame.refl _
+    | ok r =>
+      obtain ⟨st', evs⟩ := r
+      obtain ⟨gw', origin, inner, hdec, hin⟩ := execute_inv H S k hd
+      cases inner with
+      | transfer t => left; exact hin
+      | deploy dd =>
+        right; left
+        obtain ⟨hreg, st1, addr, ev, hdt, hst'⟩ := hin
+        obtain ⟨ha, hnone, hst1⟩ := deployTokenContract_inv S k hdt
+        subst ha hst1
+        refine ⟨_, dd.tokenId, Frame.trans (frame_gw st gw') (frame_setTok _ _ _), setTok_isSome _ _ _, hnone, hst', Or.inl hreg⟩
+  | gateway f => left; exact frame_gw _ _
+  | userTransfer t s d a au =>
+    left
+    simp only [step]
+    split
+    · exact Frame.refl _
+    · split
+      · rename_i st' ht; exact tokTransfer_frame ht
+      · exact Frame.refl _
+  | minterMint t m d a au =>
+    left
+    simp only [step]
+    split
+    · split
+      · exact Frame.refl _
+      · exact frame_setTok _ _ _
+    · exact Frame.refl _
+
+theorem step_chainName (st : State) (op : Op) : (step H S k st op).1.chainName = st.chainName := by
+  rcases step_cases H S k st op with hf | ⟨st3, tid, hf, _, _, heq, _⟩ | ⟨token, tid, _, heq⟩
+  · exact hf.2.1
+  · rw [heq]; exact hf.2.1
+  · rw [heq]
+
+/-! ### the registry is write-once -/
+
+/-- every native entry of the registry points at the address derived from its id, and that address holds a token -/
+def RegInv (st : State) : Prop :=
+  ∀ tid addr, st.registry tid = some (addr, .native) → addr = deployedAddress S k st.self tid ∧ (st.tokens addr).isSome = true
+
+theorem regInv_step (st : State) (op : Op) (h : RegInv S k st) : RegInv S k (step H S k st op).1 := by
+  intro x a hx
+  rcases step_cases H S k st op with hf | ⟨st3, tid, hf, hsome, _, heq, _⟩ | ⟨token, tid, _, heq⟩
+  · obtain ⟨hs, _, hr, ht⟩ := hf
+    rw [hr] at hx
+    obtain ⟨h1, h2⟩ := h x a hx
+    rw [hs]
+    exact ⟨h1, ht _ h2⟩
+  · rw [heq] at hx ⊢
+    simp only at hx ⊢
+    obtain ⟨hs, _, hr, ht⟩ := hf
+    by_cases hxt : x = tid
+    · subst hxt
+      simp only [if_true, Option.some.injEq, Prod.mk.injEq, and_true] at hx
+      subst hx
+      rw [hs]
+      exact ⟨rfl, hsome⟩
+    · simp only [hxt, if_false] at hx
+      rw [hr] at hx
+      obtain ⟨h1, h2⟩ := h x a hx
+      rw [hs]
+      exact ⟨h1, ht _ h2⟩
+  · rw [heq] at hx ⊢
+    simp only at hx ⊢
+    by_cases hxt : x = tid
+    · simp [hxt] at hx
+    · simp only [hxt, if_false] at hx
+      exact h x a hx
+
+/-- a local deployment whose derived id equals `tid` (for a canonical entry this can only happen through a hash collision,
+    see `interchain_ne_canonical`) -/
+def DeploysId (chain : Bytes) (tid : Bytes) : Op → Prop
+  | .deploy _ ca sa _ _ _ _ _ => interchainTokenId H k chain ca sa = tid
+  | _ => False
+
+theorem registry_write_once_step (st : State) (op : Op) (tid : Bytes) (v : Addr × Manager) (hinv : RegInv S k st)
+    (h : st.registry tid = some v) (hnc : v.2 = .lockUnlock → ¬ DeploysId H k st.chainName tid op) :
+    (step H S k st op).1.registry tid = some v := by
+  rcases step_cases H S k st op with hf | ⟨st3, tid', hf, hsome, hnone, heq, hor⟩ | ⟨token, tid', hnone, heq⟩
+  · rw [hf.2.2.1]; exact h
+  · rw [heq]
+    simp only
+    by_cases hxt : tid = tid'
+    · exfalso
+      subst hxt
+      obtain ⟨a, m⟩ := v
+      cases m with
+      | native =>
+        have h2 := (hinv tid a h).2
+        rw [(hinv tid a h).1] at h2
+        rw [hnone] at h2
+        cases h2
+      | lockUnlock =>
+        rcases hor with hor | ⟨au, ca, sa, n, sy, d, su, m, rfl, hid⟩
+        · rw [h] at hor; cases hor
+        · exact hnc rfl hid
+    · simp only [hxt, if_false]
+      rw [hf.2.2.1]; exact h
+  · rw [heq]
+    simp only
+    by_cases hxt : tid = tid'
+    · subst hxt
+      rw [h] at hnone
+      cases hnone
+    · simp only [hxt, if_false]
+      exact h
+
+/-- once an id is registered its token address and manager type never change, in any history: re-deploying, re-registering
+    and remote deploy messages for a taken id all leave the entry as it is -/
+theorem registry_write_once (st : State) (ops : List Op) (tid : Bytes) (v : Addr × Manager) (hinv : RegInv S k st)
+    (h : st.registry tid = some v) (hnc : v.2 = .lockUnlock → ∀ op ∈ ops, ¬ DeploysId H k st.chainName tid op) :
+    (run H S k st ops).1.registry tid = some v := by
+  induction ops generalizing st with
+  | nil => simpa [run] using h
+  | cons op ops ih =>
+    simp only [run]
+    apply ih
+    · exact regInv_step H S k st op hinv
+    · exact registry_write_once_step H S k st op tid v hinv h (fun hv => hnc hv op (List.mem_cons_self ..))
+    · intro hv op' hop'
+      rw [step_chainName]
+      exact hnc hv op' (List.mem_cons_of_mem _ hop')
+
+/-- re-registering a canonical token, and a remote deploy message for a taken id, fail -/
+theorem taken_id_refused (st : State) (token : Addr) (c i sa payload origin : Bytes) (d : Abi.Deploy) :
+    ((st.registry (canonicalTokenId H k st.chainName token)).isSome = true →
+        ∃ e, registerCanonicalToken H k st token = .error e) ∧
+    (Abi.decodeHub payload = .ok (.receiveFromHub origin (.deploy d)) → (st.registry d.tokenId).isSome = true →
+        ∃ e, execute H S k st c i sa payload = .error e) := by
+  constructor
+  · intro hs
+    refine ⟨.tokenAlreadyRegistered, ?_⟩
+    unfold registerCanonicalToken
+    simp only
+    rw [if_pos]
+    exact hs
+  · intro hdec hs
+    cases hex : execute H S k st c i sa payload with
+    | error e => exact ⟨e, rfl⟩
+    | ok r =>
+      exfalso
+      obtain ⟨st', evs⟩ := r
+      obtain ⟨gw', origin', inner, hdec', hin⟩ := execute_inv H S k hex
+      rw [hdec] at hdec'
+      simp only [Except.ok.injEq, Abi.HubMsg.receiveFromHub.injEq] at hdec'
+      obtain ⟨_, rfl⟩ := hdec'
+      simp only at hin
+      rw [hin.1] at hs
+      cases hs
+
+/-- re-deploying under the same (deployer, salt) fails: the derived address already holds the token -/
+theorem redeploy_refused (st : State) (auths : List Addr) (caller : Addr) (salt name symbol : Bytes) (decimals : Nat)
+    (supply : Int) (minter : Option Addr)
+    (h : (st.tokens (deployedAddress S k st.self (interchainTokenId H k st.chainName caller salt))).isSome = true) :
+    ∃ e, deployInterchainToken H S k st auths caller salt name symbol decimals supply minter = .error e := by
+  cases hd : deployInterchainToken H S k st auths caller salt name symbol decimals supply minter with
+  | error e => exact ⟨e, rfl⟩
+  | ok r =>
+    exfalso
+    obtain ⟨st', tid, evs⟩ := r
+    obtain ⟨_, htid, hnone, _⟩ := deploy_inv H S k hd
+    subst htid
+    rw [hnone] at h
+    cases h
+
+/-! ### what a local deployment produces -/
+
+/-- Every successful local deployment: the id is the stated function of (chain, deployer, salt); the registry maps it to the
+    derived address with the native manager; the token reports that id and the requested metadata, is owned by the service,
+    and the deployer holds max(supply, 0).  Minting rights: under the hypothesis that NOT (supply > 0 and a minter other
+    than the service is designated), the minters are exactly the service and the designated minter. -/
+theorem deploy_exact (st st' : State) (auths : List Addr) (caller : Addr) (salt name symbol : Bytes) (decimals : Nat)
+    (supply : Int) (minter : Option Addr) (tid : Bytes) (evs : List Event)
+    (h : deployInterchainToken H S k st auths caller salt name symbol decimals supply minter = .ok (st', tid, evs)) :
+    caller ∈ auths ∧ tid = interchainTokenId H k st.chainName caller salt ∧
+    st'.registry tid = some (deployedAddress S k st.self tid, .native) ∧
+    ∃ t, st'.tokens (deployedAddress S k st.self tid) = some t ∧
+      t.kind = .interchain ∧ t.tokenId = tid ∧ t.name = name ∧ t.symbol = symbol ∧ t.decimals = decimals ∧
+      t.owner = st.self ∧
+      t.bal caller = (if supply > 0 then supply else 0) ∧ (∀ x, x ≠ caller → t.bal x = 0) ∧
+      (¬ (supply > 0 ∧ ∃ m, minter = some m ∧ m ≠ st.self) →
+          ∀ x, t.minter x = (decide (x = st.self) || decide (minter = some x))) := by
+  obtain ⟨hau, htid, hnone, st3, hst', hcase⟩ := deploy_inv H S k h
+  refine ⟨hau, htid, by rw [hst']; simp, ?_⟩
+  rw [hst']
+  simp only
+  rcases hcase with ⟨hsup, hne, rfl⟩ | ⟨hsup, st2, hm, ⟨hmin, rfl⟩ | ⟨m', t, hmin, ht, rfl⟩⟩
+  · refine ⟨freshTok st minter tid name symbol decimals, by simp [setTok], rfl, rfl, rfl, rfl, rfl, rfl, ?_, ?_, ?_⟩
+    · simp [freshTok, hsup]
+    · intro x _; rfl
+    · intro _ x; rfl
+  · obtain ⟨t, ht, _, _, _, rfl⟩ := tokMint_inv hm
+    have ht' : t = freshTok st (some st.self) tid name symbol decimals := by
+      simpa [setTok] using ht.symm
+    subst ht'
+    refine ⟨_, setTok_get _ _ _, rfl, rfl, rfl, rfl, rfl, rfl, ?_, ?_, ?_⟩
+    · simp [freshTok, hsup]
+    · intro x hx; simp [freshTok, hx]
+    · intro _ x
+      subst hmin
+      by_cases hx : x = st.self <;> simp [freshTok, hx, eq_comm]
+  · obtain ⟨t0, ht0, _, _, _, rfl⟩ := tokMint_inv hm
+    have ht0' : t0 = freshTok st (some st.self) tid name symbol decimals := by
+      simpa [setTok] using ht0.symm
+    subst ht0'
+    have ht' : t = { freshTok st (some st.self) tid name symbol decimals with
+        bal := fun a => if a = caller then (freshTok st (some st.self) tid name symbol decimals).bal caller + supply
+                        else (freshTok st (some st.self) tid name symbol decimals).bal a } := by
+      simpa [setTok] using ht.symm
+    subst ht'
+    refine ⟨_, setTok_get _ _ _, rfl, rfl, rfl, rfl, rfl, rfl, ?_, ?_, ?_⟩
+    · simp [freshTok, hsup]
+    · intro x hx; simp [freshTok, hx]
+    · intro hcond x
+      subst hmin
+      have hm' : m' = st.self := by
+        by_cases hq : m' = st.self
+        · exact hq
+        · exact absurd ⟨hsup, m', rfl, hq⟩ hcond
+      subst hm'
+      by_cases hx : x = st.self <;> simp [freshTok, setTok, hx, eq_comm]
+
+/-- KNOWN FINDING, proved: with a positive initial supply and a designated minter other than the service, the service is NOT
+    a minter of the token it just deployed … -/
+theorem supply_and_minter_counterexample (st st' : State) (auths : List Addr) (caller : Addr) (salt name symbol : Bytes)
+    (decimals : Nat) (supply : Int) (m : Addr) (tid : Bytes) (evs : List Event)
+    (hs : supply > 0) (hm : m ≠ st.self)
+    (h : deployInterchainToken H S k st auths caller salt name symbol decimals supply (some m) = .ok (st', tid, evs)) :
+    ∃ t, st'.tokens (deployedAddress S k st.self tid) = some t ∧ t.minter st.self = false ∧ t.minter m = true := by
+  obtain ⟨hau, htid, hnone, st3, hst', hcase⟩ := deploy_inv H S k h
+  rw [hst']
+  simp only
+  rcases hcase with ⟨hsup, _⟩ | ⟨hsup, st2, hm', ⟨hmin, _⟩ | ⟨m', t, hmin, ht, rfl⟩⟩
+  · exact absurd hs hsup
+  · cases hmin
+  · cases hmin
+    obtain ⟨t0, ht0, _, _, _, rfl⟩ := tokMint_inv hm'
+    refine ⟨_, setTok_get _ _ _, ?_, ?_⟩
+    · have : st.self ≠ m := fun hx => hm hx.symm
+      simp [setTok, this]
+    · simp
+
+/-- … so the service can no longer mint it: every inbound transfer to that token is rejected -/
+theorem no_mint_without_minter_right (st : State) (token dst : Addr) (amount : Int) (t : Tok)
+    (ht : st.tokens token = some t) (hm : t.minter t.owner = false) :
+    ∃ e, tokMintByService st token dst amount = .error e := by
+  unfold tokMintByService
+  rw [ht]
+  simp only
+  split
+  · exact ⟨_, rfl⟩
+  · rw [if_pos (Or.inr (Or.inl (by simp [hm])))]
+    exact ⟨_, rfl⟩
+
+/-- a token deployed by a remote deploy message: owned by the service, minters = the service and the decoded minter -/
+theorem remote_deploy_exact (st st' : State) (c i sa payload origin : Bytes) (d : Abi.Deploy) (evs : List Event)
+    (h : execute H S k st c i sa payload = .ok (st', evs))
+    (hd : Abi.decodeHub payload = .ok (.receiveFromHub origin (.deploy d))) :
+    st'.registry d.tokenId = some (deployedAddress S k st.self d.tokenId, .native) ∧
+    ∃ t, st'.tokens (deployedAddress S k st.self d.tokenId) = some t ∧
+      t.kind = .interchain ∧ t.tokenId = d.tokenId ∧ t.name = d.name ∧ t.symbol = d.symbol ∧ t.decimals = d.decimals ∧
+      t.owner = st.self ∧ (∀ x, t.bal x = 0) ∧
+      (∀ x, t.minter x = (decide (x = st.self) || decide ((d.minter.bind addrFromXdr) = some x))) := by
+  obtain ⟨gw', origin', inner, hdec', hin⟩ := execute_inv H S k h
+  rw [hd] at hdec'
+  simp only [Except.ok.injEq, Abi.HubMsg.receiveFromHub.injEq] at hdec'
+  obtain ⟨_, rfl⟩ := hdec'
+  simp only at hin
+  obtain ⟨_, st1, addr, ev, hdt, hst'⟩ := hin
+  obtain ⟨ha, _, hst1⟩ := deployTokenContract_inv S k hdt
+  simp only at ha
+  subst ha hst1 hst'
+  refine ⟨by simp, _, setTok_get _ _ _, rfl, rfl, rfl, rfl, rfl, rfl, fun _ => rfl, fun _ => rfl⟩
 
 end Cgp.Props.C11
